@@ -13,7 +13,7 @@ from ..model import FunctionInfo, AnalysisError, dotted
 from ..report import Ctx
 from ..tensor import Typer, MODEL_ARRAYS
 from ..pat import Snips
-from ..util import norm, fn_body_nodes, walk_local, kwarg, lexical_guards, atomic_facts
+from ..util import zero_test, cmp_views, has_cmp, norm, fn_body_nodes, walk_local, kwarg, lexical_guards, atomic_facts
 from .common import arg_permutation_rule, names_in, calls_named
 
 EXPLANATION = (
@@ -228,14 +228,12 @@ def rule_zero_prob(ctx: Ctx, fns: List[FunctionInfo], list_attr: str, dist_names
                 ok = False
                 for g in cfg.nodes:
                     if g.kind == "if" and any(g.ast is x for x in ast.walk(lp)):
-                        t = g.ast.test
-                        if isinstance(t, ast.Compare) and isinstance(t.left, ast.Name) and t.left.id == prob:
-                            zero_cmp = isinstance(t.comparators[0], ast.Constant) and t.comparators[0].value == 0
-                            if zero_cmp and isinstance(t.ops[0], ast.Eq) and any(isinstance(b, ast.Continue) for b in g.ast.body):
-                                # `if p == 0: continue` must come before the lookup
-                                ok = ok or (g.id != node and cfg.dominates(g.id, node))
-                            if zero_cmp and isinstance(t.ops[0], (ast.Gt, ast.NotEq)) and any(lk is x for x in ast.walk(g.ast)):
-                                ok = True
+                        zt = zero_test(g.ast.test, prob)
+                        if zt == "zero" and any(isinstance(b, ast.Continue) for b in g.ast.body):
+                            # `if p == 0: continue` must come before the lookup
+                            ok = ok or (g.id != node and cfg.dominates(g.id, node))
+                        if zt == "nonzero" and any(lk is x for b in g.ast.body for x in ast.walk(b)):
+                            ok = True
                 ctx.check(ok, rule, fi, lk, f"{list_attr} lookup of the distribution key happens only for non-zero probability" + (f" (lookup #{k_fn})" if k_fn > 1 else ""), "",
                           f"`{norm(lk)}` is evaluated before / without the zero-probability filter: a successor listed with probability 0 need not be in "
                           f"the inferred {list_attr} (reachable_states skips it) and the lookup raises")
@@ -272,9 +270,7 @@ def rule_reachability(ctx: Ctx):
                       f"the closure iterates `{norm(it)}`: successors listed with probability 0 (e.g. members of .support) are added to the reachable set")
     else:
         key, prob = [x.id for x in lp.target.elts]
-        skip = [n for n in lp.body if isinstance(n, ast.If) and isinstance(n.test, ast.Compare) and isinstance(n.test.left, ast.Name) and n.test.left.id == prob
-                and isinstance(n.test.comparators[0], ast.Constant) and n.test.comparators[0].value == 0 and isinstance(n.test.ops[0], (ast.Eq, ast.LtE))
-                and any(isinstance(b, ast.Continue) for b in n.body)]
+        skip = [n for n in lp.body if isinstance(n, ast.If) and zero_test(n.test, prob) == "zero" and any(isinstance(b, ast.Continue) for b in n.body)]
         adds = [c for c in ast.walk(lp) if isinstance(c, ast.Call) and isinstance(c.func, ast.Attribute) and c.func.attr == "add"]
         ok = bool(skip) and all(lp.body.index(skip[0]) < min(i for i, b in enumerate(lp.body) if any(a is x for x in ast.walk(b))) for a in adds)
         ctx.check(ok, "REACH-1", f, lp, "zero-probability successors are skipped before anything is added", "",
@@ -362,7 +358,7 @@ def rule_vectors(ctx: Ctx, typer: Typer):
     ctx.check(ok, "VEC-1", f, f.node, "explicitly absorbing states are always absorbing (or-ed in)", "", "explicit absorbing flags can be masked out")
     f = C.methods["_unable_to_reach_absorbing"]
     src = ast.unparse(f.node)
-    ctx.check("self.discount_rate < 1.0" in src and "floyd_warshall" in src and "self.absorbing_state_vec" in src, "VEC-1", f, f.node,
+    ctx.check(has_cmp(f.node, "self.discount_rate", "<", "1.0") and "floyd_warshall" in src and "self.absorbing_state_vec" in src, "VEC-1", f, f.node,
               "cannot-reach vector: zero when discounted, else no path to an absorbing state", "", "cannot-reach analysis lost a component")
 
 
